@@ -216,12 +216,14 @@ def cases(tier, seed):
                             'budget': 60.0 if tier == 'quick' else 240.0, 'path_timeout': 30.0,
                             'twin': i == 0 and ind == 4})
     # the same value printed before under a different indent (per-process caches)
-    for name, src in (('longkey', "{'%s': 1, 2: ['%s']}" % ('key words ' * 9, 'value words ' * 8)),
-                      ('nested-strs', "[{'k': '%s'}, ('%s',)]" % ('alpha beta ' * 8, 'gamma delta ' * 7))):
+    for name, src in (('longkey', "{'%s': 1, 2: ['%s']}" % ('key words ' * 4, 'value words ' * 3)),
+                      ('nested-strs', "[{'k': '%s'}, ('%s',)]" % ('alpha beta ' * 4, 'gamma delta ' * 3))):
         for warm, ind in ((2, 4), (4, 3), (8, 1)):
-            out.append({'name': 'warm:%s|page|i%d-after-i%d' % (name, ind, warm), 'family': 'ast',
-                        'params': {'src': src, 'slice': 'page', 'indent': ind, 'warmup_indent': warm},
-                        'budget': 90.0 if tier == 'quick' else 300.0, 'path_timeout': 30.0})
+            # widths at which the strings are split (the sub-range keeps the case small)
+            for sl in (('page:8-34',) if tier == 'quick' else ('page:8-34', 'page:35-80', 'ribbon:5-40')):
+                out.append({'name': 'warm:%s|%s|i%d-after-i%d' % (name, sl, ind, warm), 'family': 'ast',
+                            'params': {'src': src, 'slice': sl, 'indent': ind, 'warmup_indent': warm},
+                            'budget': 90.0 if tier == 'quick' else 300.0, 'path_timeout': 30.0})
     sk = ['[A0, A1]', '{A0: [A1, A2]}', '[A0, (A1, {A2: A0})]', '[[[A0]], A1]', '{A0: A1, A2: A0, A1: A2}']
     for j, s in enumerate(sk if tier == 'thorough' else sk[:3]):
         out.append({'name': 'indent-symbolic:%s' % s, 'family': 'indent',
